@@ -37,6 +37,9 @@ from pathlib import Path
 VERIF = Path(__file__).resolve().parent.parent
 REPO = os.environ.get("PYPDE_REPO", "/repo")
 NPROC = int(os.environ.get("VERIF_NPROC", "16"))
+# runs against a scratch checkout (seeded changes) must not overwrite the committed evidence
+_SCRATCH = os.path.realpath(REPO) != "/repo"
+OUT = Path(os.environ.get("VERIF_OUT", "/tmp/verif_scratch_out")) if _SCRATCH else VERIF
 
 
 # ----------------------------------------------------------------------------------------------
@@ -296,7 +299,7 @@ class Run:
             if f.get("status") == "known" and fnmatch.fnmatchcase(sig, f["signature"]):
                 known = f
                 break
-        rdir = VERIF / "replays" / self.pid
+        rdir = OUT / "replays" / self.pid
         rdir.mkdir(parents=True, exist_ok=True)
         h = hashlib.sha1(sig.encode()).hexdigest()[:12]
         path = rdir / f"{h}.json"
@@ -377,8 +380,8 @@ class Run:
             "wall_s": round(wall, 2),
             "violations": len(unknown),
         }
-        edir = VERIF / "evidence"
-        edir.mkdir(exist_ok=True)
+        edir = OUT / "evidence"
+        edir.mkdir(parents=True, exist_ok=True)
         (edir / f"{self.pid}.json").write_text(json.dumps(evidence, indent=1))
         print(
             f"[{self.pid}] tier={self.tier} seed={self.seed} evaluations={self.evaluations} "
